@@ -74,7 +74,9 @@ var bsInv = "BitString invariant 8*len(buf) >= cap >= len >= rCursor >= 0 (trust
 var gCheckRange = guardRef{"boc:BitString.checkRange", "(n>=*s.cap)"}
 var gSizeLo = guardRef{"boc:parseBocHeader", "(φsizeBytes<1)"}
 var gSizeHi = guardRef{"boc:parseBocHeader", "(φsizeBytes>4)"}
-var gCells = guardRef{"boc:parseBocHeader", "(boc.readNBytesUIntFromArray()>len(_[_:]))"}
+
+// (the count comes from the integer reader directly, or as the first result of an unexported "read and advance" helper)
+var gCells = guardRef{"boc:parseBocHeader", "(boc.readNBytesUIntFromArray()>len(_[_:])) ∥ (boc.…()#0>len(boc.…()#1))"}
 
 // (stated as what is compared: bits.len against 8*(2+34*offset) = 16 + 272*offset)
 var gPruned = guardRef{"boc:newImmutableCell", "lin:1,-272;-16"}
@@ -122,6 +124,10 @@ var excC07 = map[string]excEntry{
 	`re:^boc\.deserializeCellData P2 slice φ\w*\[(0:)?\([^\]]*\):?\]$`:                                                                                                                  {"guard len(cellData) >= dataBytesSize + referenceIndexSize*refNum with referenceIndexSize = header.sizeBytes in 1..4 and refNum = d1%8 >= 0", []guardRef{gCellLen, gSizeLo}},
 	"boc.deserializeCellData P2 slice φcellData[referenceIndexSize:] @ boc.DeserializeBoc call(φcellsData,*boc.parseBocHeader()#0.sizeBytes)":                                           {"consuming loop over refNum references under the same guard; referenceIndexSize validated 1..4 by parseBocHeader", []guardRef{gCellLen, gSizeLo, gSizeHi}},
 	"boc.readNBytesUIntFromArray P2 index arr[φi] @ boc.deserializeCellData call(referenceIndexSize,φcellData) @ boc.DeserializeBoc call(φcellsData,*boc.parseBocHeader()#0.sizeBytes)": {"same consuming loop", []guardRef{gCellLen, gSizeLo}},
+	// (the same two constructs when "read an index, advance the buffer" is an unexported helper called from the
+	// reference loop with (referenceIndexSize, cellData): the helper's buf[n:] is that loop's cellData[size:])
+	`re:^boc\.\w+ P2 slice [^\[]*\[[^\]]*:\] @ boc\.deserializeCellData call\([^,)]*,φ\w*\) @ boc\.DeserializeBoc call\(φ\w*,\*boc\.parseBocHeader\(\)#0\.sizeBytes\)$`: {"consuming loop over refNum references under the same guard, written through a read-and-advance helper; referenceIndexSize validated 1..4 by parseBocHeader", []guardRef{gCellLen, gSizeLo, gSizeHi}},
+	`re:^boc\.readNBytesUIntFromArray P2 index [^\[]*\[φ\w*\] @ boc\.\w+ call\([^,)]*,[^,)]*\) @ boc\.deserializeCellData call\([^,)]*,φ\w*\)`:                          {"same consuming loop, through the helper", []guardRef{gCellLen, gSizeLo}},
 	"boc.DeserializeBoc P2 index φrefsArray[φi]": {"refsArray receives exactly one append per iteration of the first loop (cellCount iterations, early exits leave the function), so len(refsArray) = cellCount > i", nil},
 	"boc.DeserializeBoc P2 index make[φi]":       {"depths has len(cellsArray) = cellCount elements by the same append-count argument", nil},
 	"boc.DeserializeBoc P4 make []*github.com/tonkeeper/tongo/boc.Cell len=0 cap=*boc.parseBocHeader()#0.cellCount": {"parseBocHeader rejects cellCount > remaining input length", []guardRef{gCells}},
